@@ -4,6 +4,7 @@
 #include "fiber_mutex.h"
 
 #include "fiber_manager.h"
+#include "fiber_verif.h"
 
 int fiber_mutex_init(fiber_mutex_t* mutex) {
   assert(mutex);
@@ -59,6 +60,7 @@ int fiber_mutex_unlock_internal(fiber_mutex_t* mutex) {
   // unlock and wake a waiting fiber if there is one
   const int new_val = atomic_fetch_add(&mutex->counter, 1) + 1;
   if (new_val != 1) {
+    FIBER_VERIF_POINT(FV_MUTEX_UNLOCK_MID, mutex, 0);
     fiber_manager_wake_from_mpsc_queue(fiber_manager_get(), &mutex->waiters, 1);
     return 1;
   }
